@@ -82,7 +82,7 @@ def e2e_expected(N, K, S):
         "store-load.pointer-roundtrip": 1, "go.arg-value-at-go": 1, "go.args-in-order": 123, "go.args-before-next-stmt": 4,
         "go.func-value-at-go": 1, "go.value-receiver-at-go": 1, "go.pointer-shared": 6, "go.iface-receiver-at-go": 7,
         "go.closure-shares-variable": 11, "go.not-exactly-once": 0, "go.nested-sum": 6 * N, "value.inconsistent-load": 0,
-        "value.last": K, "value.swap-old": K, "value.first-store.rounds": min(5 * S, 1000000), "value.first-store.incomplete": 0, "typed.int64": 2 * nk, "typed.uint32": nk, "typed.bool": 1, "end": 1,
+        "value.last": K, "value.swap-old": K, "value.first-store.rounds": min(S, 200000), "value.first-store.incomplete": 0, "typed.int64": 2 * nk, "typed.uint32": nk, "typed.bool": 1, "end": 1,
     }
 
 
@@ -95,7 +95,7 @@ def e2e_pipeline(ctx, N, K, S, ir_ready, res):
         res["t"]["build_llgo"] = round(time.time() - t0, 1)
         extra, ird = setup_ir_shims(ctx)
         d = os.path.join(ctx.scratch, "stress")
-        main = open(os.path.join(H, "e2e_main.go.txt")).read().replace("@N@", str(N)).replace("@K@", str(K)).replace("@S@", str(S)).replace("@R@", str(min(5 * S, 1000000)))
+        main = open(os.path.join(H, "e2e_main.go.txt")).read().replace("@N@", str(N)).replace("@K@", str(K)).replace("@S@", str(S)).replace("@R@", str(min(S, 200000)))
         write_module(d, {"main.go": main, "atom/atom.go": atomgen.wrapper_source()})
         for opt in ("-O0", "-O2"):
             t0 = time.time()
@@ -558,11 +558,11 @@ def dfs_cfg(e):
 
 DFS_QUICK = [  # (sems, progs, max runs, max steps, spurious budget[, notify lists '<n>@<start of the ticket counters>'])
     # two semaphores that collide under address hashing ((addr>>3)%251): same 8-byte word / 2008 bytes apart; and 64 bytes apart
-    ("0,0", "A0;A1;R0.R1", 5000, 60, 0), ("0+0", "A0;A1;R0.R1", 5000, 60, 0), ("0_0", "A0;A1;R1.R0", 5000, 60, 0),
-    ("0,0", "A0;A1;R0;R1", 6000, 60, 0),
+    ("0,0", "A0;A1;R0.R1", 3000, 60, 0), ("0+0", "A0;A1;R0.R1", 3000, 60, 0), ("0_0", "A0;A1;R1.R0", 2500, 60, 0),
+    ("0,0", "A0;A1;R0;R1", 3000, 60, 0),
     # notify-list histories that start just below the 2^32 wrap of the ticket counters
-    ("0", "W0;O0", 2000, 40, 1, "1@4294967295"), ("0", "W0;W0;O0.O0", 6000, 50, 0, "1@4294967294"),
-    ("0", "W0;W0;W0;B0", 5000, 50, 0, "1@4294967294"), ("0", "W0;O0;W0;O0", 6000, 50, 0, "1@4294967295"),
+    ("0", "W0;O0", 2000, 40, 1, "1@4294967295"), ("0", "W0;W0;O0.O0", 3000, 50, 0, "1@4294967294"),
+    ("0", "W0;W0;W0;B0", 3000, 50, 0, "1@4294967294"), ("0", "W0;O0;W0;O0", 3000, 50, 0, "1@4294967295"),
     ("0", "W0;W0", 3000, 40, 1), ("0", "W0;O0", 3000, 40, 1), ("0", "W0;B0", 3000, 40, 1), ("0", "W0;W0;O0", 4000, 40, 0),
     ("0", "W0;W0;B0", 4000, 40, 0), ("1", "A0.R0;A0.R0", 3000, 60, 0), ("0", "A0;R0", 3000, 40, 2), ("1", "A0;A0;R0", 4000, 60, 0),
     ("3", "A0;A0;A0", 2000, 60, 0), ("2", "A0;A0;A0", 4000, 60, 1), ("0", "A0;R0.R0;A0", 6000, 60, 0), ("0", "A0.W0;R0.O0", 4000, 60, 0),
@@ -1000,7 +1000,8 @@ def run(ctx, args):
         "tie (A): textual parser of atomicrmw/cmpxchg/load atomic/store atomic in harness/c11/atomgen.py; IR captured through an `llc` stand-in "
         "from `llgo build -check-llfiles` (the module llgo compiles in memory); indivisibility and the total order of seq_cst instructions are "
         "LLVM's and the hardware's (trusted, not proved)",
-        "counters are natural numbers in the model: uint32 wrap-around after 2^32 operations is not modelled",
+        "the notify list's ticket counters are modelled as true counts whose 32-bit images drive every decision (histories start at arbitrary "
+        "values, e.g. just below the wrap); the semaphore count is a natural number (its wrap after 2^32 releases is not modelled)",
         "specification judge (permits conserved, acquire takes a permit from a positive count, Wait returns only after a notification completed "
         "between its ticket and its return, nobody asleep next to a permit / behind a covering notification in quiescent states) in checks/c11.py",
     ]
@@ -1177,6 +1178,8 @@ def layered(ctx, quick, ticket_less, cas_retry, only=None):
         st["events"] += len(evs)
         for (key, what) in judge_layered(scn, n, end, evs, final):
             st["contract_failures"] += 1
+            if (key == K_CAS and cas_retry) or (key == K_TICKET and ticket_less):
+                key = None          # the tree has the repair: this is not the old, known class
             if key is None:
                 st["unclassified_failures"] = st.get("unclassified_failures", 0) + 1
                 if st["unclassified_failures"] > MAX_UNCLASSIFIED:
